@@ -1,7 +1,7 @@
 SPECIFICATION Spec
 CONSTANTS
   Oct = {0, 1, 2, 255}
-  MaxLen = 8
+  MaxLen = 9
   Mand = 2
   HdrConsumed = 2
   AllocFirst = FALSE
